@@ -123,6 +123,10 @@ type fileSpec struct {
 	Services []svcSpec
 	Msgs     []string // top-level messages
 	Nested   bool     // an extra nested message Outer.Inner is available
+	// ExtPkg, if set, adds a second proto file whose message Note lives in another Go package whose
+	// import path ends in this name (e.g. "context", "drpc"); methods may use ".ext.Note". Such
+	// descriptors are checked for compilation and vet only.
+	ExtPkg string
 	Protolib string   // "", "custom"
 	JSON     bool
 	GoPkg    string
@@ -146,7 +150,11 @@ func (f fileSpec) String() string {
 		}
 		ss = append(ss, fmt.Sprintf("service %s{%s}", s.Name, strings.Join(ms, ", ")))
 	}
-	return fmt.Sprintf("package %s protolib=%q json=%v %s", f.Pkg, f.Protolib, f.JSON, strings.Join(ss, " "))
+	ext := ""
+	if f.ExtPkg != "" {
+		ext = fmt.Sprintf(" ext-message-package=%q", f.ExtPkg)
+	}
+	return fmt.Sprintf("package %s protolib=%q json=%v%s %s", f.Pkg, f.Protolib, f.JSON, ext, strings.Join(ss, " "))
 }
 
 func genSpec(r *payload.SplitMix, idx int) fileSpec {
@@ -225,6 +233,29 @@ func shiftSpecs() []fileSpec {
 	}
 }
 
+// foreignPkgSpecs use request/response messages of another Go package whose name clashes with an
+// identifier the generated code uses itself (the standard context package, the drpc runtime, ...).
+func foreignPkgSpecs() []fileSpec {
+	var out []fileSpec
+	for _, name := range []string{"context", "drpc", "errors", "drpcerr", "msgs"} {
+		for _, first := range []bool{true, false} {
+			svc := svcSpec{Name: "Svc"}
+			ms := []methodSpec{
+				{Name: "U", In: ".ext.Note", Out: ".ext.Note"},
+				{Name: "C", CS: true, In: ".ext.Note", Out: "Req"},
+				{Name: "S", SS: true, In: "Req", Out: ".ext.Note"},
+				{Name: "B", CS: true, SS: true, In: ".ext.Note", Out: ".ext.Note"},
+			}
+			if !first {
+				ms = append([]methodSpec{{Name: "Local", In: "Req", Out: "Req"}}, ms...)
+			}
+			svc.Methods = ms
+			out = append(out, fileSpec{Pkg: "a.b.c", JSON: first, Msgs: []string{"Req"}, ExtPkg: name, Services: []svcSpec{svc}})
+		}
+	}
+	return out
+}
+
 func buildRequest(f fileSpec, idx int) *pluginpb.CodeGeneratorRequest {
 	goPkg := fmt.Sprintf("c17scratch/p%d", idx)
 	fd := &descriptorpb.FileDescriptorProto{
@@ -266,6 +297,16 @@ func buildRequest(f fileSpec, idx int) *pluginpb.CodeGeneratorRequest {
 		MessageType: []*descriptorpb.DescriptorProto{{Name: proto.String("StringValue"), Field: []*descriptorpb.FieldDescriptorProto{
 			{Name: proto.String("value"), Number: proto.Int32(1), Type: &str, Label: &opt, JsonName: proto.String("value")}}}},
 	}
+	files := []*descriptorpb.FileDescriptorProto{wrappers, fd}
+	if f.ExtPkg != "" {
+		fd.Dependency = append(fd.Dependency, "ext.proto")
+		// (files are listed in dependency order)
+		files = []*descriptorpb.FileDescriptorProto{wrappers, {
+			Name: proto.String("ext.proto"), Package: proto.String("ext"), Syntax: proto.String("proto3"),
+			Options:     &descriptorpb.FileOptions{GoPackage: proto.String(goPkg + "/" + f.ExtPkg + ";" + f.ExtPkg)},
+			MessageType: []*descriptorpb.DescriptorProto{{Name: proto.String("Note"), Field: []*descriptorpb.FieldDescriptorProto{tagField()}}},
+		}, fd}
+	}
 	param := ""
 	var ps []string
 	if f.Protolib == "custom" {
@@ -275,7 +316,7 @@ func buildRequest(f fileSpec, idx int) *pluginpb.CodeGeneratorRequest {
 		ps = append(ps, "json=false")
 	}
 	param = strings.Join(ps, ",")
-	return &pluginpb.CodeGeneratorRequest{FileToGenerate: []string{"svc.proto"}, ProtoFile: []*descriptorpb.FileDescriptorProto{wrappers, fd}, Parameter: proto.String(param)}
+	return &pluginpb.CodeGeneratorRequest{FileToGenerate: []string{"svc.proto"}, ProtoFile: files, Parameter: proto.String(param)}
 }
 
 func runPlugin(bin string, req *pluginpb.CodeGeneratorRequest, param string) (*pluginpb.CodeGeneratorResponse, error) {
@@ -490,7 +531,12 @@ func checkSpec(id string, f fileSpec, idx int, seed uint64) runner.Result {
 	os.MkdirAll(filepath.Join(dir, "cmd"), 0o755)
 	defer os.RemoveAll(dir)
 	desc := f.String()
-	goResp, err := runPlugin(pluginGo, req, "")
+	goReq := req
+	if f.ExtPkg != "" {
+		goReq = proto.Clone(req).(*pluginpb.CodeGeneratorRequest)
+		goReq.FileToGenerate = []string{"ext.proto", "svc.proto"}
+	}
+	goResp, err := runPlugin(pluginGo, goReq, "")
 	if err != nil || goResp.Error != nil {
 		return runner.Inconcl(id, fmt.Sprintf("protoc-gen-go rejected the descriptor (%v %v): %s", err, goResp.GetError(), desc))
 	}
@@ -504,7 +550,12 @@ func checkSpec(id string, f fileSpec, idx int, seed uint64) runner.Result {
 		return res
 	}
 	for _, r := range append(goResp.File, resp.File...) {
-		os.WriteFile(filepath.Join(dir, filepath.Base(r.GetName())), []byte(r.GetContent()), 0o644)
+		target := filepath.Join(dir, filepath.Base(r.GetName()))
+		if f.ExtPkg != "" && strings.HasPrefix(filepath.Base(r.GetName()), "ext.") {
+			os.MkdirAll(filepath.Join(dir, f.ExtPkg), 0o755)
+			target = filepath.Join(dir, f.ExtPkg, filepath.Base(r.GetName()))
+		}
+		os.WriteFile(target, []byte(r.GetContent()), 0o644)
 	}
 	nmeth := 0
 	for _, s := range f.Services {
@@ -545,6 +596,16 @@ func checkSpec(id string, f fileSpec, idx int, seed uint64) runner.Result {
 	}
 	if len(f.Services) == 0 || nmeth == 0 && false {
 		return runner.Hold(id, desc, false)
+	}
+	if f.ExtPkg != "" {
+		// messages from a foreign package: the generated package compiles and vets; the derived
+		// driver does not follow import aliases, so the round trip is left to the other descriptors
+		if out, err := run(mod, "go", "vet", pkg); err != nil {
+			return fail("c17:generated-code-does-not-vet", "go vet of the generated package fails", out)
+		}
+		res := runner.Hold(id, desc, nmeth > 0)
+		res.Events = int64(nmeth)
+		return res
 	}
 	drv, calls, err := genDriver(dir)
 	if err != nil {
@@ -599,6 +660,11 @@ func gen(tier string, seed uint64) []runner.Scenario {
 		id := fmt.Sprintf("fixed/underscore-shift-%d", k)
 		out = append(out, runner.Scenario{ID: id, Run: func() runner.Result { return checkSpec(id, f, 1000+k, seed) }})
 	}
+	for k, f := range foreignPkgSpecs() {
+		k, f := k, f
+		id := fmt.Sprintf("fixed/foreign-package-%s-%d", f.ExtPkg, k)
+		out = append(out, runner.Scenario{ID: id, Run: func() runner.Result { return checkSpec(id, f, 2000+k, seed) }})
+	}
 	for i := 1; i <= n; i++ {
 		i := i
 		r := &payload.SplitMix{S: payload.Hash(seed, 0xC17, uint64(i))}
@@ -613,7 +679,7 @@ func main() {
 	runner.Main(runner.Check{
 		Property: "C17",
 		Level:    "exploration",
-		Rule:     "one case = one generated file descriptor: 1-3 services named from {Foo, foo_bar, Foo_Bar, fooBar, FOO2, Get_Item, A, A_B, B, Svc, x, Store_}, 0-5 methods named from {Get, get_item, Get_Item, listItems, PUT2, B, A_B, Sync, x, Do_, Stream, Close, Send, Recv} in every streaming combination, packages {a, a.b.c, my_pkg.v1, Zed}, request/response types among local messages, a nested message and google.protobuf.StringValue, protolib in {default, custom}, json on/off; plus fixed descriptors (services A_B and A with streaming method B; pairs of services whose <service>_<method> strings coincide, e.g. Store_Item.Get and Store.Item_Get). The plugin built from /repo generates the code; go build, go vet and a driver derived from the generated interfaces by go/parser run every method of the generated client against the generated server through drpcmux over a real connection. Non-trivial: descriptors with at least one method that the generator accepted. Distinct: by descriptor text.",
+		Rule:     "one case = one generated file descriptor: 1-3 services named from {Foo, foo_bar, Foo_Bar, fooBar, FOO2, Get_Item, A, A_B, B, Svc, x, Store_}, 0-5 methods named from {Get, get_item, Get_Item, listItems, PUT2, B, A_B, Sync, x, Do_, Stream, Close, Send, Recv} in every streaming combination, packages {a, a.b.c, my_pkg.v1, Zed}, request/response types among local messages, a nested message and google.protobuf.StringValue, protolib in {default, custom}, json on/off; plus fixed descriptors (services A_B and A with streaming method B; pairs of services whose <service>_<method> strings coincide, e.g. Store_Item.Get and Store.Item_Get; messages imported from another Go package named context, drpc, errors, drpcerr or msgs - compile and vet only). The plugin built from /repo generates the code; go build, go vet and a driver derived from the generated interfaces by go/parser run every method of the generated client against the generated server through drpcmux over a real connection. Non-trivial: descriptors with at least one method that the generator accepted. Distinct: by descriptor text.",
 		Assumptions: []string{
 			"protoc is not installed: both plugins are driven with hand-built CodeGeneratorRequests; protoc-gen-go comes from the module cache (v1.27.1)",
 			"two methods of one service, or two services, whose names differ only in case/underscores, and the gogo protolib (no gogo message generator available offline), are excluded",
